@@ -73,8 +73,13 @@ type QResult struct {
 }
 
 // RunQProgram executes the program under the controlled scheduler.
-func RunQProgram(rng *core.Rng, p QProgram) *QResult {
+func RunQProgram(rng *core.Rng, p QProgram) *QResult { return RunQProgramForced(rng, p, nil, false) }
+
+// RunQProgramForced: systematic=true replays the forced decision prefix and
+// then always takes the first enabled goroutine (depth-first exploration).
+func RunQProgramForced(rng *core.Rng, p QProgram, forced []int, systematic bool) *QResult {
 	s := NewSched(rng)
+	s.Forced, s.Systematic = forced, systematic
 	defer s.Deactivate()
 	h := NewHistory(s.Tick)
 	q := col.Queue[string](notation).MakeWithCapacity(uint(p.Cap))
